@@ -160,6 +160,25 @@ func keyForm(v ssa.Value, isKey func(ssa.Value) bool, use *ssa.BasicBlock, depth
 			}
 			return f + "-" + quote(c), ok && guarded
 		}
+	case *ssa.Slice:
+		// k[len(prefix):] under strings.HasPrefix(k, prefix) - TrimPrefix written by hand
+		// (refactoring B23_r5)
+		if n, isN := ConstInt(x.Low); isN && x.High == nil && x.Max == nil {
+			f, ok := keyForm(x.X, isKey, use, depth+1)
+			if f == "" {
+				return "", false
+			}
+			for _, fa := range factsIncludingOwn(use) {
+				garg, gc, gname, isP := prefixFact(fa)
+				if !isP || !fa.Truth || gname != "strings.HasPrefix" || int64(len(gc)) != n {
+					continue
+				}
+				if gf, _ := keyForm(garg, isKey, use, depth+1); gf == f {
+					return f + "-" + quote(gc), ok
+				}
+			}
+			return "", false
+		}
 	case *ssa.Call:
 		switch {
 		case IsCallTo(x, "strings.TrimPrefix", "strings.TrimSuffix"):
